@@ -138,6 +138,9 @@ func (c *Conn) CloseNow() (err error) {
 	c.vEv("CloseNowCall", 0, 0, 0, 0)
 
 	if !c.casClosing() {
+		// Someone else is already closing, possibly in the middle of a close handshake with an
+		// unresponsive peer: CloseNow does not wait for that, it closes the connection under it.
+		c.close()
 		err = c.waitGoroutines()
 		if err != nil {
 			return err
